@@ -184,15 +184,15 @@ func TestVerifC04(t *testing.T) {
 		for si, h := range states {
 			for _, blocks := range []uint64{1, 3} {
 				for rep := 0; rep < 4; rep++ {
-					obj := &SM3{h: h, nx: 0, len: 64 * blocks}
 					var rest []byte
 					if rep >= 2 {
 						// and with bytes already buffered (mid-block state)
-						nx := rng.Pick([]int{1, 55, 56, 63})
-						rest = rng.Bytes(nx)
-						copy(obj.x[:], rest)
-						obj.nx = nx
-						obj.len += uint64(nx)
+						rest = rng.Bytes(rng.Pick([]int{1, 55, 56, 63}))
+					}
+					obj, okInj := injectSM3(h, rest, 64*blocks+uint64(len(rest)))
+					if !okInj {
+						r.Class("trivial:state-injection-not-applicable-on-this-layout")
+						continue
 					}
 					var hist []string
 					bad := false
@@ -252,7 +252,11 @@ func TestVerifC04(t *testing.T) {
 				for j := range h {
 					h[j] = uint32(rng.Uint64())
 				}
-				obj := &SM3{h: h, nx: 0, len: cnt}
+				obj, okInj := injectSM3(h, nil, cnt)
+				if !okInj {
+					r.Class("trivial:state-injection-not-applicable-on-this-layout")
+					continue
+				}
 				var rest []byte
 				var hist []string
 				bad := false
@@ -305,6 +309,57 @@ func TestVerifC04(t *testing.T) {
 			r.Violation("io.Copy-digest-wrong", hk.D{"n": n})
 		}
 		r.Eval(fmt.Sprintf("iocopy:len%%64=%d", n%64))
+	}
+
+	// (3b) thorough tier: ONE Write / one SumSM3 call of 2^32 bytes and more (an untouched zero mapping). The
+	// per-call byte count crosses 32 bits although every counter in the object may be wide enough. Oracle:
+	// the same bytes written in 1 GiB pieces (whose correctness the injected-count histories above judge)
+	// must give the same digest - two histories of one message.
+	if hk.Thorough() {
+		if z := hk.ZeroMap(1<<32+4096, false); z != nil {
+			for _, n := range []int{1<<32 + 3, 1 << 32} {
+				if n != 1<<32 {
+					ref1 := New()
+					for off := 0; off < n; off += 1 << 30 {
+						end := off + 1<<30
+						if end > n {
+							end = n
+						}
+						ref1.Write(z[off:end])
+					}
+					want := ref1.Sum(nil)
+					one := New()
+					wn, err := one.Write(z[:n])
+					got := one.Sum(nil)
+					shot := SumSM3(z[:n])
+					if wn != n || err != nil || !bytes.Equal(got, want) || !bytes.Equal(shot[:], want) {
+						r.Violation("single-giant-write-differs-from-chunked-writes", hk.D{"len": n, "write_returned": wn, "single_write": hk.Hex(got), "sumsm3": hk.Hex(shot[:]), "chunked_1GiB": hk.Hex(want)})
+					}
+					r.Eval("giant-single-write:2^32+3")
+					continue
+				}
+				// 3 buffered bytes, then one write that ends 2^32 bytes later
+				two := New()
+				two.Write(z[:3])
+				two.Write(z[:n])
+				three := New()
+				three.Write(z[:3])
+				for off := 0; off < n; off += 1 << 30 {
+					end := off + 1<<30
+					if end > n {
+						end = n
+					}
+					three.Write(z[off:end])
+				}
+				if !bytes.Equal(two.Sum(nil), three.Sum(nil)) {
+					r.Violation("giant-write-after-buffered-bytes-differs-from-chunked-writes", hk.D{"len": n})
+				}
+				r.Eval("giant-single-write:3+2^32")
+			}
+			hk.Unmap(z)
+		} else {
+			r.Inconclusive("c04: cannot map 4 GiB of zero pages")
+		}
 	}
 
 	// (4) long messages: the bit-length encoding; the thorough tier crosses the 2^32-bit boundary
